@@ -164,6 +164,19 @@ def _tmag(obj):
 
 
 def check_mps(case, rec):
+    if case.get('shared') and len(case['obj']['qD']) - 1 >= 4 and case['obj']['style'] != 'intdtype':
+        # translation-invariant bulk: all interior bonds carry the same charge list and ONE ndarray object sits at every bulk site
+        # (a legal, user-assembled MPS); the call must not write into tensors it does not own
+        desc = dict(case['obj'])
+        qD = desc['qD']; Ls = len(qD) - 1
+        desc['qD'] = [qD[0]] + [qD[1]] * (Ls - 1) + [qD[Ls]]
+        psi = build_mps(desc)
+        bulk = psi.A[1]
+        for i in range(1, Ls - 1):
+            psi.A[i] = bulk
+        rec.label('shared_bulk_tensor')
+        _common(psi, 'mps', case['mode'], desc, rec)
+        return
     psi = build_mps(case['obj'])
     if case.get('gauge') and len(psi.A) >= 2 and np.issubdtype(psi.A[0].dtype, np.inexact):
         tm = _tmag(psi)
@@ -175,6 +188,17 @@ def check_mps(case, rec):
 
 
 def check_mpo(case, rec):
+    if case.get('shared') and len(case['obj']['qD']) - 1 >= 4 and case['obj']['style'] != 'intdtype':
+        desc = dict(case['obj'])
+        qD = desc['qD']; Ls = len(qD) - 1
+        desc['qD'] = [qD[0]] + [qD[1]] * (Ls - 1) + [qD[Ls]]
+        op = build_mpo(desc)
+        bulk = op.A[1]
+        for i in range(1, Ls - 1):
+            op.A[i] = bulk
+        rec.label('shared_bulk_tensor')
+        _common(op, 'mpo', case['mode'], desc, rec)
+        return
     op = build_mpo(case['obj'])
     if case.get('gauge') and len(op.A) >= 2 and np.issubdtype(op.A[0].dtype, np.inexact):
         tm = _tmag(op)
@@ -210,13 +234,13 @@ def gen_mps(draw, tier):
     sc = draw(st.sampled_from([None, None, None, 1e-3, 2e3]))
     if sc is not None and obj['style'] != 'intdtype':
         obj['scale'] = sc
-    return {'obj': obj, 'mode': draw(st.sampled_from(['left', 'right'])), 'gauge': draw(st.sampled_from([False, False, False, True]))}
+    return {'obj': obj, 'mode': draw(st.sampled_from(['left', 'right'])), 'gauge': draw(st.sampled_from([False, False, False, True])), 'shared': draw(st.sampled_from([False, False, True]))}
 
 
 @st.composite
 def gen_mpo(draw, tier):
     return {'obj': draw(mpo_desc(Lmin=1, Lmax=4 if tier == 'quick' else 5, Dmax=4 if tier == 'quick' else 6)),
-            'mode': draw(st.sampled_from(['left', 'right'])), 'gauge': draw(st.sampled_from([False, False, False, True]))}
+            'mode': draw(st.sampled_from(['left', 'right'])), 'gauge': draw(st.sampled_from([False, False, False, True])), 'shared': draw(st.sampled_from([False, False, True]))}
 
 
 @st.composite
